@@ -179,6 +179,18 @@ class BaseExc(BaseException):
         self.n = n
 
 
+# UserExn n with n >= 20 stands for a BUILT-IN exception type raised by a user callback (the library's own except
+# clauses mention some of them): the model only knows "a subclass of Exception number n"
+BUILTIN_EXC = {20: KeyError, 21: TypeError, 22: RuntimeError, 23: IndexError, 24: ZeroDivisionError, 25: LookupError,
+               26: OSError, 27: AssertionError, 28: NotImplementedError}
+
+
+def pick_exn(k):
+    """deterministic choice of what a raising callback raises: Exception / BaseException subclasses of the harness
+    and built-in types (KeyError, TypeError, RuntimeError, ...)"""
+    return [(3, 1), (4, 1), (3, 20), (3, 7), (4, 5), (3, 21), (3, 22), (3, 5), (3, 23), (4, 7), (3, 25), (3, 26)][k % 12]
+
+
 STALE_SCOPE_AS_VALUEERROR = [False]     # set by the re-entrant hierarchical runner (hsm.impl_hsm_reent)
 
 
@@ -191,6 +203,8 @@ def classify_exc(e):
         return [2, 0]
     if isinstance(e, UserExc):
         return [3, e.n]
+    if getattr(e, 'verif_user_exc', None) is not None:
+        return [3, e.verif_user_exc]
     if isinstance(e, BaseExc):
         return [4, e.n]
     if isinstance(e, tr.MachineError):
@@ -211,6 +225,10 @@ def make_exc(exn):
         return AttributeError('x')
     if kind == 2:
         return ValueError('x')
+    if kind == 3 and n in BUILTIN_EXC:
+        ex = BUILTIN_EXC[n]('x')
+        ex.verif_user_exc = n            # recognised by classify_exc whatever the library does with the type
+        return ex
     if kind == 3:
         return UserExc(n)
     return BaseExc(n)
@@ -292,6 +310,20 @@ class World(object):
 
 class Model(object):
     pass
+
+
+class FalsyModel(Model):
+    """a model object that is falsy (an empty container-like model): `if model:` is not `if model is not None:`"""
+    def __bool__(self):
+        return False
+
+    def __len__(self):
+        return 0
+
+
+def new_model(k):
+    """every second model of a multi-model case is falsy"""
+    return FalsyModel() if k % 2 else Model()
 
 
 def build_machine(case, world, cls=None, model=None, extra_kwargs=None, models=None):
